@@ -59,6 +59,11 @@ fixed("C18", "super-polynomial:filter:oid-attr-dotted-bad-suffix", "3b4f209",
       "LDAPFilter.from_string('(' + '1.'*n + '1x=a)') took time x4 per +2 arcs (cap at n=48): ambiguous alternatives [0-9] | [1-9][0-9]* under a star",
       {"family": "oid-attr-dotted-bad-suffix", "target": "filter", "desc": {"hand": "oid-attr-dotted-bad-suffix"}})
 
+fixed("C18", "super-polynomial:schema:ext-empty-lists", "a794fe1",
+      "ObjectClassDescription.from_string('( 1.2' + ' X-a (   )'*n + ' !') took time x4-5 per extra group (2.3 s at n=11): two adjacent WSP around an empty list",
+      {"family": "ext-empty-lists", "target": "schema-oc", "desc": {"hand": "ext-empty-lists"}},
+      "first reported by the independent C18 sub-agent on the unmodified tree; re-found by the pumping monitor after spans were aligned to tokens")
+
 # ---- genuine, recorded, not repaired (reason in 'what'); keyed by mechanism, classifier lives in the check
 PIN = "Not repaired: the repository's own tests pin this behaviour, so a fix cannot pass the unedited suite."
 open_("C03", "unbind-constructed-bit",
